@@ -43,7 +43,7 @@ type genOpts struct {
 	maxDepth   int
 	maxLen     int
 	budget     int  // remaining nodes
-	natPanic   bool // native functions that panic (deferred ones are a known finding)
+	natPanic   bool // native functions that panic
 	deferNatPn bool // deferred native that panics
 	stopFatal  bool
 	callbacks  int // percentage of the call instructions that go through a native function (0: none)
@@ -100,8 +100,8 @@ func genBody(r *rand.Rand, o *genOpts, depth int, deferred bool) []*Ins {
 	return out
 }
 
-func genTree(r *rand.Rand, withFindings bool) []*Ins {
-	o := &genOpts{maxDepth: 1 + r.Intn(4), maxLen: 2 + r.Intn(5), budget: 6 + r.Intn(30), natPanic: true, deferNatPn: withFindings, stopFatal: true}
+func genTree(r *rand.Rand) []*Ins {
+	o := &genOpts{maxDepth: 1 + r.Intn(4), maxLen: 2 + r.Intn(5), budget: 6 + r.Intn(30), natPanic: true, deferNatPn: true, stopFatal: true}
 	// a third of the trees call some of their functions through native code
 	if r.Intn(3) == 0 {
 		o.callbacks = 30 + r.Intn(70)
@@ -110,17 +110,17 @@ func genTree(r *rand.Rand, withFindings bool) []*Ins {
 }
 
 // genCallbackTree: a tree whose calls mostly go through native code, with
-// Stop, Fatal, panics and recoveries inside the callbacks. A panic that leaves
-// a callback is a known finding (callback-panic-is-fatal): unless
-// withFindings, every callback recovers its panics itself.
-func genCallbackTree(r *rand.Rand, withFindings bool) []*Ins {
+// Stop, Fatal, panics and recoveries inside the callbacks. unguarded: panics
+// may leave the callbacks (they unwind through the native frame into the
+// caller: repaired by 34a254c); otherwise every callback recovers its panics itself.
+func genCallbackTree(r *rand.Rand, unguarded bool) []*Ins {
 	var body func(depth int, inCb bool) []*Ins
 	val := func() int { return 1 + r.Intn(9) }
 	body = func(depth int, inCb bool) []*Ins {
 		var out []*Ins
 		n := 1 + r.Intn(4)
 		guarded := false
-		if inCb && !withFindings {
+		if inCb && !unguarded {
 			// the callback recovers whatever panics inside it
 			out = append(out, &Ins{Tok: tDeferFn, Body: []*Ins{{Tok: tRecover}}})
 			guarded = true
@@ -145,20 +145,19 @@ func genCallbackTree(r *rand.Rand, withFindings bool) []*Ins {
 					out = append(out, &Ins{Tok: tBody, N: val()})
 				}
 			case x < 90:
-				if !inCb || guarded || withFindings {
+				if !inCb || guarded || unguarded {
 					out = append(out, &Ins{Tok: tPanic, N: val()})
 				}
 			case x < 94:
-				if !inCb || guarded || withFindings {
+				if !inCb || guarded || unguarded {
 					out = append(out, &Ins{Tok: tNatPanic, N: val()})
 				}
 			default:
 				out = append(out, &Ins{Tok: tRecover})
 			}
 		}
-		if inCb && withFindings && r.Intn(3) == 0 {
-			// a chain with a recovered record leaves the callback (known finding
-			// recovered-panic-stays-in-chain inside the VM of the callback)
+		if inCb && unguarded && r.Intn(3) == 0 {
+			// a panic raised after a recovery in the same function leaves the callback
 			out = append(out, &Ins{Tok: tDeferFn, Body: []*Ins{{Tok: tPanic, N: val()}}},
 				&Ins{Tok: tDeferFn, Body: []*Ins{{Tok: tRecover}}}, &Ins{Tok: tPanic, N: val()})
 		}
@@ -309,6 +308,21 @@ type printer struct {
 	pending []*Ins
 	names   map[*Ins]string
 	prefix  string
+	wrap    bool // every function body runs inside a range statement with one iteration
+}
+
+// fnBody prints the body of a function. With wrap it is the body of a range
+// statement that iterates once, which does not change what the function does
+// (deferred calls run when the function returns, a return statement leaves the
+// function) but makes the VM execute it in the nested call of a range body.
+func (p *printer) fnBody(t []*Ins, indent int) {
+	if !p.wrap {
+		p.body(t, indent)
+		return
+	}
+	p.w(indent, "for range []int{0} {")
+	p.body(t, indent+1)
+	p.w(indent, "}")
 }
 
 func (p *printer) w(indent int, s string) {
@@ -358,11 +372,11 @@ func (p *printer) body(t []*Ins, indent int) {
 				continue
 			}
 			p.w(indent, kw+"func() {")
-			p.body(in.Body, indent+1)
+			p.fnBody(in.Body, indent+1)
 			p.w(indent, "}()")
 		case tCallback:
 			p.w(indent, p.pkg+"Call(func() {")
-			p.body(in.Body, indent+1)
+			p.fnBody(in.Body, indent+1)
 			p.w(indent, "})")
 		case tDeferNat:
 			p.w(indent, "defer "+natCall(p.pkg, in.K, in.N))
@@ -384,18 +398,24 @@ func (p *printer) flushNamed() {
 		in := p.pending[0]
 		p.pending = p.pending[1:]
 		p.w(0, "func "+p.names[in]+"() {")
-		p.body(in.Body, 1)
+		p.fnBody(in.Body, 1)
 		p.w(0, "}")
 	}
 }
 
 // programSource sets the Line fields of t as a side effect.
-func programSource(t []*Ins) string {
-	p := &printer{line: 1, pkg: "h.", named: true, names: map[*Ins]string{}}
+func programSource(t []*Ins) string { return programSourceW(t, false) }
+
+// programRangeSource: the same program with every function body inside a
+// range statement that iterates once.
+func programRangeSource(t []*Ins) string { return programSourceW(t, true) }
+
+func programSourceW(t []*Ins, wrap bool) string {
+	p := &printer{line: 1, pkg: "h.", named: true, names: map[*Ins]string{}, wrap: wrap}
 	p.w(0, "package main")
 	p.w(0, "import \"h\"")
 	p.w(0, "func main() {")
-	p.body(t, 1)
+	p.fnBody(t, 1)
 	p.w(0, "}")
 	p.flushNamed()
 	p.w(0, "func unused() { h.B(0) }")
@@ -419,10 +439,12 @@ func templateSource(wrapped []*Ins) string {
 }
 
 // gcFunction prints the tree as the Go function `name` of a batch file.
-func gcFunction(t []*Ins, name string) string {
-	p := &printer{line: 1, pkg: "h.", named: true, names: map[*Ins]string{}, prefix: name + "_"}
+func gcFunction(t []*Ins, name string) string { return gcFunctionW(t, name, false) }
+
+func gcFunctionW(t []*Ins, name string, wrap bool) string {
+	p := &printer{line: 1, pkg: "h.", named: true, names: map[*Ins]string{}, prefix: name + "_", wrap: wrap}
 	p.w(0, "func "+name+"() {")
-	p.body(t, 1)
+	p.fnBody(t, 1)
 	p.w(0, "}")
 	p.flushNamed()
 	return p.sb.String()
@@ -457,36 +479,6 @@ func (r *runRec) decls() native.Declarations {
 		"P":     func(v int) { panic(fmt.Sprintf("p%d", v)) },
 		"Call":  func(f func()) { f() },
 	}
-}
-
-// callbackChain parses the text Run panics with when a panic leaves a
-// function called back by native code (callable.Value: the chain, oldest
-// first, one per line: `msg[ [recovered]]`, the later ones after "\tpanic: ").
-// It returns the records newest first.
-func callbackChain(s string) (recs [][2]byte, ok bool) {
-	if !strings.HasSuffix(s, "\n") {
-		return nil, false
-	}
-	lines := strings.Split(strings.TrimSuffix(s, "\n"), "\n")
-	for i, l := range lines {
-		if i > 0 {
-			if !strings.HasPrefix(l, "\tpanic: ") {
-				return nil, false
-			}
-			l = l[len("\tpanic: "):]
-		}
-		rc := byte(0)
-		if strings.HasSuffix(l, " [recovered]") {
-			rc = 1
-			l = strings.TrimSuffix(l, " [recovered]")
-		}
-		m := msgNum(l)
-		if m == 255 {
-			return nil, false
-		}
-		recs = append([][2]byte{{m, rc}}, recs...)
-	}
-	return recs, len(recs) > 0 && len(recs) < 250
 }
 
 // msgNum maps the values "p<n>" / "f<n>" back to n (255: anything else).
@@ -525,15 +517,6 @@ func encodeOutcome(tr []byte, err error, hostPanic any) (enc, noLines []byte, pa
 	case hostPanic != nil:
 		if s, ok := hostPanic.(string); ok && msgNum(s) != 255 {
 			add(13, msgNum(s))
-		} else if recs, ok := callbackChain(fmt.Sprint(hostPanic)); ok {
-			if _, isStr := hostPanic.(string); !isStr {
-				add(14)
-				break
-			}
-			add(16, byte(len(recs)))
-			for _, r := range recs {
-				add(r[0], r[1])
-			}
 		} else {
 			add(14)
 		}
